@@ -399,9 +399,160 @@ def r5_attribute_keys(ctx, s2v):
     ctx.floor('C19.R5', 'diagnostic attribute templates in pavex_macros', n_templates, 9)
 
 
+def r6_caller_locations(ctx):
+    ctx.rule('C19.R6', 'P3 who-may-call + attribute closure: `core::panic::Location::caller()` reports the call site of the outermost '
+             '#[track_caller] frame. In the runtime crate every function that calls Location::caller(), or calls a #[track_caller] function '
+             'that (transitively, through #[track_caller] frames only) does, must itself be #[track_caller]; otherwise the location recorded in '
+             'the blueprint is a line of pavex itself and not the user\'s registration site.')
+    LOC = 'core::panic::location::Location::caller'
+    bodies = [b for cr in ('pavex_bp_schema', 'pavex') for b in ctx.fb.bodies(cr) if not b.is_promoted and not b.raw.get('exp')]
+    by_id = {}
+    for b in bodies:
+        by_id.setdefault(b.nid, b)
+    tracked = set()          # functions whose caller location is observable (track_caller and reach Location::caller)
+    changed = True
+    direct = {b.nid for b in bodies if any(callee(t) == LOC for _, t in b.calls())}
+    while changed:
+        changed = False
+        for b in bodies:
+            if b.nid in tracked or not b.raw.get('tc'):
+                continue
+            if b.nid in direct or any((callee(t) or '') in tracked for _, t in b.calls()):
+                tracked.add(b.nid)
+                changed = True
+    n = 0
+    for b in bodies:
+        sites = [(bb, t) for bb, t in b.calls() if callee(t) == LOC or (callee(t) or '') in tracked]
+        if not sites:
+            continue
+        n += 1
+        ok = bool(b.raw.get('tc'))
+        bb, t = sites[0]
+        ctx.ob('C19.R6', 'track-caller|%s' % b.nid.replace('pavex::blueprint::', ''), ok, b.loc(bb, t),
+               '%s %s and is %s#[track_caller]' % (b.nid.split('::')[-1], 'calls Location::caller()' if callee(t) == LOC else 'calls the location-recording ' + (callee(t) or '').split('::')[-1] + '()',
+                                                 '' if ok else 'NOT '))
+    ctx.floor('C19.R6', 'functions that record a caller location', n, 23)
+
+
+class _InheritSem:
+    """absint semantics: Option-valued locals carry 'opt:Some' / 'opt:None' tags; Some(..) aggregates, copies, clone(),
+    as_ref()/as_deref()/map() preserve or create them; the queue item's parent_* fields and the result of
+    process_nesting_constraints are seeded per case."""
+    PRESERVING = ('core::clone::Clone::clone', 'core::option::Option::as_deref', 'core::option::Option::as_ref', 'core::option::Option::map',
+                  'core::option::Option::cloned', 'core::option::Option::as_deref_mut', 'core::option::Option::as_mut', 'core::option::Option::take')
+
+    def __init__(self, body, case, sink, dom_block):
+        self.body, self.case, self.sink, self.dom_block = body, case, sink, dom_block
+        self.seen = []
+        self._pending = None
+
+    def enum_switch(self, interp, path, body, bb, term, enum):
+        if enum == 'core::option::Option':
+            src = term.get('src')
+            tag = path.tags.get((body.id, src['l'])) if src and not src.get('p') else None
+            if tag in ('opt:Some', 'opt:None'):
+                return [tag[4:]]
+        return None
+
+    def assign(self, interp, path, body, bb, st):
+        lhs, rv = st['lhs'], st['rv']
+        if lhs.get('p'):
+            return
+        ty = body.locals[lhs['l']]
+        if rv['k'] == 'agg' and rv.get('ak') == 'adt' and strip_generics(rv['adt']) == 'core::option::Option':
+            self._pending = ((body.id, lhs['l']), 'opt:' + rv['var'])
+        elif rv['k'] == 'use' and op_place(rv['op']) is not None and op_place(rv['op']).get('p'):
+            pp = op_place(rv['op'])['p']
+            for kind, (pfield, tyfrag) in KINDS.items():
+                if tyfrag in ty and ty.startswith('core::option::Option<'):
+                    if pp[-1] == 'f:' + pfield:
+                        self._pending = ((body.id, lhs['l']), 'opt:' + self.case[kind][0])
+                    elif path.tags.get((body.id, op_place(rv['op'])['l'])) == 'nesting-constraints':
+                        self._pending = ((body.id, lhs['l']), 'opt:' + self.case[kind][1])
+
+    def call(self, interp, path, body, bb, term, name):
+        short = strip_generics(name)
+        d = term.get('dest')
+        dk = (body.id, d['l']) if d is not None and not d.get('p') else None
+
+        def arg_tag(i):
+            pl = op_place(term['args'][i]) if len(term['args']) > i else None
+            if pl is None or not all(e == '*' for e in pl.get('p', [])):
+                return None
+            return path.tags.get((body.id, pl['l']))
+        if short == self.sink and body.dominates(self.dom_block, bb):
+            got = {}
+            for i, ty in enumerate(term['aty']):
+                for kind, (_, tyfrag) in KINDS.items():
+                    if ty.startswith('core::option::Option<') and tyfrag in ty:
+                        got[kind] = arg_tag(i)
+            self.seen.append((got, body.loc(bb, term)))
+            return []
+        for k in (dk,):
+            if k is not None:
+                path.alias.pop(k, None)
+                path.memo.pop(k, None)
+                path.tags.pop(k, None)
+        if short.endswith('process_nesting_constraints') and dk is not None:
+            path.tags[dk] = 'nesting-constraints'
+        elif short in self.PRESERVING and dk is not None:
+            t = arg_tag(0)
+            if t in ('opt:Some', 'opt:None'):
+                path.tags[dk] = t
+        return [('next', path)]
+
+
+KINDS = {'path prefix': ('parent_path_prefix', 'str'), 'domain guard': ('parent_domain_guard', 'DomainGuard')}
+
+
+def r7_inheritance(ctx):
+    from ..absint import Interp, PathState
+    ctx.rule('C19.R7', 'P11 case evaluation: in process_blueprint the path prefix and the domain guard handed to a nested blueprint are evaluated '
+             'abstractly for the four combinations (inherited Some/None x own Some/None): the result is Some whenever either is Some, None only '
+             'when both are None (a nested blueprint without a prefix of its own keeps the prefix of its ancestors).')
+    BP = 'pavexc::compiler::analyses::user_components::blueprint::'
+    b = ctx.need('C19.R7', 'process_blueprint', ctx.fb.body('pavexc', BP + 'process_blueprint'))
+    if b is None:
+        return
+    dom = None
+    for bb, j, st in b.all_assigns():
+        rv = st['rv']
+        if rv['k'] == 'use' and op_place(rv['op']) is not None and (op_place(rv['op']).get('p') or [''])[-1] == 'f:parent_path_prefix':
+            dom = bb
+    if ctx.need('C19.R7', 'read of QueueItem.parent_path_prefix', dom) is None:
+        return
+
+    class TI(Interp):
+        def _stmt(self, path, body, bb, st, upvars):
+            self.sem._pending = None
+            super()._stmt(path, body, bb, st, upvars)
+            if self.sem._pending is not None:
+                k, tag = self.sem._pending
+                path.tags[k] = tag
+                self.sem._pending = None
+
+    n = 0
+    for parent in ('Some', 'None'):
+        for own in ('Some', 'None'):
+            case = {k: (parent, own) for k in KINDS}
+            sem = _InheritSem(b, case, BP + '_process_blueprint', dom)
+            TI(sem).run(b, {})
+            want = 'opt:Some' if 'Some' in (parent, own) else 'opt:None'
+            for kind in KINDS:
+                got = sorted({str(g.get(kind)) for g, _ in sem.seen})
+                n += 1
+                loc = sem.seen[0][1] if sem.seen else b.loc()
+                ctx.ob('C19.R7', 'inherit|%s|parent=%s,own=%s' % (kind, parent, own), got == [want], loc,
+                       '%s handed to the nested blueprint when the inherited one is %s and its own is %s: %s (expected %s)' % (
+                           kind, parent, own, got or 'the nested call was never reached', want[4:]))
+    ctx.floor('C19.R7', 'inheritance cases evaluated', n, 8)
+
+
 def check(ctx):
     r1_schema_symmetry(ctx)
     s2v = r2_conversions(ctx)
     r3_append_only(ctx)
     r4_exhaustive_reader(ctx)
     r5_attribute_keys(ctx, s2v or {})
+    r6_caller_locations(ctx)
+    r7_inheritance(ctx)
